@@ -244,6 +244,82 @@ pub fn run_c09(tier: Tier) -> Report {
     });
     rep.add_states(shapes.len() as u64 * 72);
     rep.add_nontrivial(shapes.iter().filter(|(w, h)| *w >= 10 || *h >= 10).count() as u64 * 72);
+    // self-related content: parts of the image equal what the filter makes of their neighbours
+    // (a shortcut that reuses a neighbour's result when "the inputs are equal" can only go wrong
+    // when its notion of the neighbour's input is the already-filtered one). For every strength:
+    // group / band k+1 := the filtered (one pass or both) or the unfiltered content of group /
+    // band k, horizontally and vertically, on gentle noise that the filter actually changes.
+    {
+        let one_pass = |data: &[u8], w: usize, s: u8, horizontal_edges: bool| -> Vec<u8> {
+            let mut img = data.to_vec();
+            let h = data.len() / w;
+            if horizontal_edges {
+                let mut y = 8;
+                while y + 1 < h {
+                    for x in 0..w {
+                        let o = annex_j(img[(y - 2) * w + x], img[(y - 1) * w + x], img[y * w + x], img[(y + 1) * w + x], s);
+                        for (k, v) in o.iter().enumerate() {
+                            img[(y - 2 + k) * w + x] = *v;
+                        }
+                    }
+                    y += 8;
+                }
+            } else {
+                let mut x = 8;
+                while x + 1 < w {
+                    for r in 0..h {
+                        let o = annex_j(img[r * w + x - 2], img[r * w + x - 1], img[r * w + x], img[r * w + x + 1], s);
+                        for (k, v) in o.iter().enumerate() {
+                            img[r * w + x - 2 + k] = *v;
+                        }
+                    }
+                    x += 8;
+                }
+            }
+            img
+        };
+        let sizes: Vec<(usize, usize)> = if tier.thorough() { vec![(16, 16), (24, 17), (33, 24), (64, 33), (40, 40), (17, 64)] } else { vec![(16, 16), (24, 17), (33, 24), (64, 33)] };
+        let mut work = vec![];
+        for &(w, h) in &sizes {
+            for s in 1..=12u8 {
+                for variant in 0..3u64 {
+                    work.push((w, h, s, variant));
+                }
+            }
+        }
+        let n_self = std::sync::atomic::AtomicU64::new(0);
+        work.par_iter().for_each(|&(w, h, s, variant)| {
+            let mut rng = Lcg::new(seed ^ (w as u64 * 77 + h as u64 * 131 + s as u64 * 7 + variant));
+            let amp = 3 * s as u64 + 2;
+            let x0: Vec<u8> = (0..w * h).map(|_| (128 + rng.below((2 * amp + 1) as u32) as i64 - amp as i64).clamp(0, 255) as u8).collect();
+            let sources: [(&str, Vec<u8>); 4] = [("horizontal-edge pass", one_pass(&x0, w, s, true)), ("vertical-edge pass", one_pass(&x0, w, s, false)), ("both passes", deblock_model(&x0, w, s)), ("unfiltered", x0.clone())];
+            for (sname, f) in &sources {
+                for (dname, dx, dy) in [("right", 8usize, 0usize), ("below", 0, 8), ("right-and-below", 8, 8)] {
+                    for parity in 0..2usize {
+                        // groups (8 columns) / bands (8 rows) of the given parity take the content the
+                        // source has one group / band to the left / above
+                        let mut img = x0.clone();
+                        for y in 0..h {
+                            for x in 0..w {
+                                let (gx, gy) = (x / 8, y / 8);
+                                let take = (dx > 0 && gx % 2 == parity && x >= dx) || (dy > 0 && gy % 2 == parity && y >= dy);
+                                if take {
+                                    let (sx, sy) = (if dx > 0 && gx % 2 == parity && x >= dx { x - dx } else { x }, if dy > 0 && gy % 2 == parity && y >= dy { y - dy } else { y });
+                                    img[y * w + x] = f[sy * w + sx];
+                                }
+                            }
+                        }
+                        check_image(&rep, "C09", w, h, s, &img, &format!("every second group takes the {sname} result of its neighbour ({dname})"), true);
+                        n_self.fetch_add(1, std::sync::atomic::Ordering::Relaxed);
+                    }
+                }
+            }
+        });
+        let n = n_self.load(std::sync::atomic::Ordering::Relaxed);
+        rep.add_transitions(n);
+        rep.add_states(n);
+        rep.extra("self_related_images", json!(n));
+    }
     // call histories: the filter is a pure function; all sequences of three calls over an alphabet
     // of (shape, strength, content) on one dedicated thread
     {
@@ -279,7 +355,7 @@ pub fn run_c09(tier: Tier) -> Report {
     }
     rep.set_rule(&format!(
         "kernel: (A,B,C,D) patterns x strengths 1..12 placed in images that isolate one pass ({} units of 65536 patterns; quick = all 2^32 for one strength (5 + VERIF_SEED mod 12) in the vector slot of the horizontal pass, 32x32 (A,B) lattice x all (C,D) for every strength, pass and slot kind (packed vector lanes, scalar remainder, alone in an otherwise flat vector group); thorough = all 2^32 x 12 x both passes x vector and scalar slots, and all 2^32 x 12 alone in an otherwise flat vector group of the horizontal pass); \
-         geometry: all widths 1..={maxw} x heights 0..={maxh} x 12 strengths x 6 contents {:?}; all sequences of three calls over 30 (shape, strength, content) letters on one thread (purity); non-trivial = image with at least one filterable edge",
+         geometry: all widths 1..={maxw} x heights 0..={maxh} x 12 strengths x 6 contents {:?}; images in which every second 8-column group / 8-row band holds what the filter (either pass, both, or none) makes of its neighbour, for every strength; all sequences of three calls over 30 (shape, strength, content) letters on one thread (purity); non-trivial = image with at least one filterable edge",
         units.len(), GEOM_NAMES
     ));
     rep.sample(json!({"kernel": {"A": 10, "B": 10, "C": 9, "D": 10, "strength": 5, "expected": annex_j(10, 10, 9, 10, 5)}}));
